@@ -158,7 +158,8 @@ def gen_jobs(tier, seed, env_text):
     add("depth-3 types", [{"kind": "type", "t": t} for t in (rng.sample(wrap3, 800) if q else wrap3)])
     add("TypedDict types (exhaustive)", [{"kind": "type", "t": t} for t in tds])
     add("rewritten forms: Tuple[T, ...]", [{"kind": "type", "t": T("tuplevar", "", [t])} for t in t1[:40]])
-    look = [T("cls", "mtfx.lookalikes." + n) for n in ("TimeoutError", "Warning", "frozenset", "NoneType", "List", "Holder.int")]
+    look = [T("cls", "mtfx.lookalikes." + n) for n in ("TimeoutError", "Warning", "frozenset", "NoneType", "List", "Holder.int", "Union", "Set", "Dict",
+                                                             "Generator", "Iterator", "TypedDict", "Tuple")]
     STRT, INTT = T("cls", "str"), T("cls", "int")
     shapes_of = [lambda c: c, lambda c: T("typeof", "", [c]), lambda c: T("list", "", [c]), lambda c: T("dict", "", [STRT, c]),
                  lambda c: T("union", "", [], [c, INTT]), lambda c: T("td", "", [], [T("req", "x", [c])]),
